@@ -50,6 +50,9 @@ PERSIST_MODELS = {
                     "2": [O("SetBatch", "E2", "E3", "ER"), O("Remove", "E1")]}, "init": []},
     "W2b": {"prog": {"1": [O("Remove", "E1"), O("Set", "E2")],
                      "2": [O("SetBatch", "E3", "E4"), O("RemoveBatch", "E3", "E1")]}, "init": ["E1", "E4"]},
+    # must mirror tla/Blocklist/MC_Refresh.tla
+    "R": {"prog": {"1": [O("Remove", "E1"), O("Set", "E2")],
+                   "2": [O("SetBatch", "E3"), O("RemoveBatch", "E4")]}, "init": ["E1", "E4"]},
     "W3": {"prog": {"1": [O("Set", "E1"), O("RemoveBatch", "E2", "E4")],
                     "2": [O("SetBatch", "E2", "E3", "ER"), O("Remove", "E1")],
                     "3": [O("Set", "ER"), O("Set", "E4"), O("Remove", "E3")]}, "init": []},
@@ -164,7 +167,7 @@ def matcher(ctx, thorough):
         raise vf.MachineryError("matcher history replay was vacuous")
 
 
-def persist_schedules(ctx, model, scheds, tag):
+def persist_schedules(ctx, model, scheds, tag, validate=True):
     """Force the schedules on the real BlockList, then validate the recorded trace."""
     pm = PERSIST_MODELS[model]
     trace = os.path.join(ctx.scratch, "persist_%s_%s.ndjson" % (model, tag))
@@ -185,6 +188,9 @@ def persist_schedules(ctx, model, scheds, tag):
             "drift": res["drift"], "drift_notes": res.get("drift_notes", [])}
     if not res.get("violations") and (c.get("steps", 0) == 0 or res["cases"] == 0):
         raise vf.MachineryError("persist schedule replay was vacuous: %s" % c)
+    if not validate:
+        ctx.cov["replay"]["persist_%s_%s" % (model, tag)] = info
+        return info
     # code -> spec
     nlines = sum(1 for _ in open(trace))
     ok, r = ctx.tlc_trace("Blocklist", "Trace_BlPersist.tla", "Trace_BlPersist_%s.cfg" % model, trace, timeout=1500)
@@ -290,6 +296,56 @@ def persist(ctx, thorough):
                 "interrupted persist left behind (local.tmp.* is never removed); see crash_dir_reload_differs"}
 
 
+def refresh_stage(ctx, thorough):
+    """BlRefresh.tla: New()'s background re-read of the directory (one second after construction) interleaved with
+    API calls.  The repaired behaviour (the re-read leaves `local` alone) satisfies Converged; the as-built one
+    (`local` parsed like any other list) must fail it on the model.  Schedules with the Refresh step at
+    TLC-chosen points are executed with the REAL timer-driven refresh of the BlockList under test."""
+    ctx.tlc("Blocklist", "MC_Refresh.tla", "MC_Refresh_skipLocal.cfg", workers=4, timeout=900, heap="4g")
+    r = ctx.tlc("Blocklist", "MC_Refresh.tla", "MC_Refresh_rereadLocal.cfg", workers=4, timeout=900, heap="4g",
+                must_pass=False, count=False, tag="as-built-must-fail")
+    if r.violated != "Converged":
+        raise vf.MachineryError("MC_Refresh_rereadLocal: expected Converged to fail on the as-built model, got %r" % r.violated)
+    def labels(b):
+        sched = []
+        for i in range(1, len(b)):
+            if b[i][1].get("refreshed") != b[i - 1][1].get("refreshed"):
+                sched.append("Refresh")
+            else:
+                sched.append(step_label(b[i - 1][1], b[i][1], "Step"))
+        return sched
+    seen, scheds = set(), []
+    # TLC's own shortest history from the as-built model to a quiescent state where `local` and memory differ:
+    # the last removal is in memory, the file still lists the entry, the re-read merges it back, the removal's
+    # snapshot (taken before) is what reaches the file
+    parts = re.split(r"\nState (\d+): <(.*?)>\n", r.out)
+    cex = [(parts[i + 1], vf.parse_tla_state(parts[i + 2].split("\n\n")[0])) for i in range(1, len(parts) - 2, 3)]
+    if len(cex) < 3:
+        raise vf.MachineryError("could not read the counter-example of MC_Refresh_rereadLocal")
+    scheds.append(labels(cex))
+    if "Refresh" not in scheds[0]:
+        raise vf.MachineryError("the as-built counter-example has no Refresh step: %s" % scheds[0])
+    # the shortest history in which the re-read touches memory at all
+    scheds.append(["Step(1)", "Refresh"])
+    behs = ctx.tlc_behaviours("Blocklist", "MC_Refresh.tla", "Sim_Refresh.cfg", num=120 if not thorough else 600, depth=60, timeout=600)
+    for sc in scheds:
+        seen.add(";".join(sc))
+    for b in behs:
+        sched = labels(b)
+        if "Refresh" not in sched:
+            continue
+        k = ";".join(sched)
+        if k not in seen:
+            seen.add(k)
+            scheds.append(sched)
+    scheds = scheds[:10 if not thorough else 60]      # each one waits out the real one-second timer
+    for sc in scheds:
+        ctx._distinct.add("persist-refresh:" + ";".join(sc))
+    info = persist_schedules(ctx, "R", scheds, "refresh", validate=False)
+    if info.get("steps", 0) == 0:
+        raise vf.MachineryError("refresh schedules did not run")
+
+
 def step_label(prev, cur, action):
     """Which writer moved between two BlPersist states (Crash moves none)."""
     if action.startswith("Crash") or cur.get("crashed", 0) != prev.get("crashed", 0):
@@ -387,4 +443,5 @@ def run(ctx, replay):
         raise vf.MachineryError("the persist gate hook is not in %s (apply /verif/hooks/c18_blocklist_gate.patch)" % vf.REPO)
     matcher(ctx, thorough)
     persist(ctx, thorough)
+    refresh_stage(ctx, thorough)
     stress(ctx, thorough)
